@@ -305,6 +305,8 @@ def explore(run, max_paths=20000, on_path=None):
             # unmodelled construct): this path is out of reach -- undecided, never a verdict
             import traceback as _tb
             last = _tb.extract_tb(e.__traceback__)[-1]
+            if os.environ.get('PYVC_TRACE'):
+                _tb.print_exc()
             res.unsupported.append((n, 'interpreter error on this path (%s: %s at %s:%d)'
                                     % (type(e).__name__, str(e)[:120], last.filename.split('/')[-1], last.lineno)))
         # schedule alternatives created beyond the prefix
